@@ -3,7 +3,9 @@ audit, the line-protocol bridge to the executable model, evidence and verdicts (
 import fcntl
 import json
 import math
+import contextlib
 import os
+import signal
 import random
 import re
 import struct
@@ -194,8 +196,9 @@ def parse_dict(s):
 def canon_py(fn, *a, **kw):
     """Call the implementation; canonicalise the outcome: ('ok', value) | ('nonreal', info) | ('exc', class name)."""
     try:
-        r = fn(*a, **kw)
-    except Exception as e:     # noqa
+        with time_limit(60):
+            r = fn(*a, **kw)
+    except Exception as e:     # noqa  (a call that does not return within 60 s counts as the exception class CallTimeout)
         return ('exc', type(e).__name__)
     return ('ok', r)
 
@@ -203,6 +206,25 @@ def canon_py(fn, *a, **kw):
 def same_float(a, b):
     """bit-for-bit equality of two doubles (NaN == NaN)"""
     return bits(a) == bits(b) or (a != a and b != b)
+
+
+class CallTimeout(Exception):
+    pass
+
+
+@contextlib.contextmanager
+def time_limit(seconds):
+    """raise CallTimeout in the calling (main) thread if the block does not finish in time: a call into the implementation that does not return
+    is a finding ('returns ...' / 'terminates'), not a reason for the check itself to hang"""
+    def handler(signum, frame):
+        raise CallTimeout()
+    old = signal.signal(signal.SIGALRM, handler)
+    signal.setitimer(signal.ITIMER_REAL, seconds)
+    try:
+        yield
+    finally:
+        signal.setitimer(signal.ITIMER_REAL, 0)
+        signal.signal(signal.SIGALRM, old)
 
 
 TIE_REL = 1e-12
